@@ -176,6 +176,38 @@ func c10Monitor(args []string) int {
 		}
 		return true
 	}
+	checkSig := func(fen string, ws, bs []string) {
+		p, err := position.NewPositionFen(fen)
+		if err != nil || p == nil {
+			return // e.g. side not to move in check
+		}
+		got := p.HasInsufficientMaterial()
+		all := append(append([]string{}, ws...), bs...)
+		has := func(l []string, k string) int {
+			c := 0
+			for _, x := range l {
+				if x == k {
+					c++
+				}
+			}
+			return c
+		}
+		heavy := has(all, "P")+has(all, "R")+has(all, "Q") > 0
+		minors := func(l []string) int { return has(l, "N") + has(l, "L") + has(l, "D") }
+		mustTrue := !heavy && ((len(ws) == 0 && len(bs) == 0) ||
+			(minors(ws) == 1 && len(ws) == 1 && len(bs) == 0) || (minors(bs) == 1 && len(bs) == 1 && len(ws) == 0) ||
+			(len(ws) == 1 && len(bs) == 1 && ((ws[0] == "L" && bs[0] == "L") || (ws[0] == "D" && bs[0] == "D"))))
+		mating := func(a, b []string) bool { // a has mating material against bare king b
+			return len(b) == 0 && ((has(a, "N") >= 1 && has(a, "L")+has(a, "D") >= 1) || (has(a, "L") >= 1 && has(a, "D") >= 1))
+		}
+		mustFalse := heavy || mating(ws, bs) || mating(bs, ws)
+		rep.Cases++
+		rep.Stats["material_signatures"]++
+		if (mustTrue && !got) || (mustFalse && got) {
+			rep.Violate("insufficient-material", map[string]interface{}{"fen": fen, "white": strings.Join(ws, ""), "black": strings.Join(bs, "")},
+				fmt.Sprintf("HasInsufficientMaterial=%v (must be true: %v, must be false: %v)", got, mustTrue, mustFalse))
+		}
+	}
 	for _, ws := range sigs {
 		for _, bs := range sigs {
 			board := map[string]byte{"e1": 'K', "e8": 'k'}
@@ -203,36 +235,81 @@ func c10Monitor(args []string) int {
 					sb.WriteByte('/')
 				}
 			}
-			fen := sb.String() + " w - - 0 1"
-			p, err := position.NewPositionFen(fen)
-			if err != nil || p == nil {
-				continue // e.g. side not to move in check
-			}
-			got := p.HasInsufficientMaterial()
-			all := append(append([]string{}, ws...), bs...)
-			has := func(l []string, k string) int {
-				c := 0
-				for _, x := range l {
-					if x == k {
-						c++
+			checkSig(sb.String()+" w - - 0 1", ws, bs)
+		}
+	}
+	// the same signatures on random squares (kings anywhere, bishops on any square of their colour,
+	// pawns on ranks 2-7, either side to move): the answer depends on the material only
+	reps := 1 + n/20000
+	for _, ws := range sigs {
+		for _, bs := range sigs {
+			for r := 0; r < reps; r++ {
+				var board [64]byte
+				wkSq, bkSq := rng.Intn(64), rng.Intn(64)
+				if wkSq == bkSq || SquareDistance(Square(wkSq), Square(bkSq)) < 2 {
+					continue
+				}
+				board[wkSq], board[bkSq] = 'K', 'k'
+				ok := true
+				put := func(k string, white bool) {
+					for tries := 0; tries < 100; tries++ {
+						sq := rng.Intn(64)
+						f, rk := sq%8, sq/8
+						if board[sq] != 0 {
+							continue
+						}
+						light := (f+rk)%2 == 1
+						if (k == "L" && !light) || (k == "D" && light) || (k == "P" && (rk == 0 || rk == 7)) {
+							continue
+						}
+						pc := k[0]
+						if k == "L" || k == "D" {
+							pc = 'B'
+						}
+						if !white {
+							pc += 32
+						}
+						board[sq] = pc
+						return
+					}
+					ok = false
+				}
+				for _, k := range ws {
+					put(k, true)
+				}
+				for _, k := range bs {
+					put(k, false)
+				}
+				if !ok {
+					continue
+				}
+				var sb strings.Builder
+				for rk := 7; rk >= 0; rk-- {
+					e := 0
+					for f := 0; f < 8; f++ {
+						if c := board[rk*8+f]; c != 0 {
+							if e > 0 {
+								sb.WriteString(strconv.Itoa(e))
+								e = 0
+							}
+							sb.WriteByte(c)
+						} else {
+							e++
+						}
+					}
+					if e > 0 {
+						sb.WriteString(strconv.Itoa(e))
+					}
+					if rk > 0 {
+						sb.WriteByte('/')
 					}
 				}
-				return c
-			}
-			heavy := has(all, "P")+has(all, "R")+has(all, "Q") > 0
-			minors := func(l []string) int { return has(l, "N") + has(l, "L") + has(l, "D") }
-			mustTrue := !heavy && ((len(ws) == 0 && len(bs) == 0) ||
-				(minors(ws) == 1 && len(ws) == 1 && len(bs) == 0) || (minors(bs) == 1 && len(bs) == 1 && len(ws) == 0) ||
-				(len(ws) == 1 && len(bs) == 1 && ((ws[0] == "L" && bs[0] == "L") || (ws[0] == "D" && bs[0] == "D"))))
-			mating := func(a, b []string) bool { // a has mating material against bare king b
-				return len(b) == 0 && ((has(a, "N") >= 1 && has(a, "L")+has(a, "D") >= 1) || (has(a, "L") >= 1 && has(a, "D") >= 1))
-			}
-			mustFalse := heavy || mating(ws, bs) || mating(bs, ws)
-			rep.Cases++
-			rep.Stats["material_signatures"]++
-			if (mustTrue && !got) || (mustFalse && got) {
-				rep.Violate("insufficient-material", map[string]interface{}{"fen": fen, "white": strings.Join(ws, ""), "black": strings.Join(bs, "")},
-					fmt.Sprintf("HasInsufficientMaterial=%v (must be true: %v, must be false: %v)", got, mustTrue, mustFalse))
+				stm := " w - - 0 1"
+				if rng.Bool() {
+					stm = " b - - 0 1"
+				}
+				rep.Stats["material_signatures_random_squares"]++
+				checkSig(sb.String()+stm, ws, bs)
 			}
 		}
 	}
